@@ -450,6 +450,8 @@ def run(model: RepoModel, rep, tier: str):
     # sink argument that only ever holds a constant
     from .c07 import _r4_keyword_order
     _r4_keyword_order(model, rep, "C11.R6")
+    from .c10 import check_use_positions
+    check_use_positions(model, rep, "C11.R3")
     from ..generic2 import check_index_partitions
     rep.rule("C11.R7", "argument binding covers every position exactly once: the positional loop over [0, common_len), the loop over the remaining "
                         "positional parameters and the tail slice of the remaining positional arguments continue exactly where the first loop stopped, "
